@@ -1,7 +1,7 @@
 (* C03 — lemmas.  Part 1: index arithmetic.  Part 2: VLE._setup.  Part 3: the closure of
    the writes the wrappers perform.  Part 4: every wrapper stays in the closure.
    Part 5: LLE, SLE. *)
-From V Require Import Common.NumFacts C03.Model.
+From V Require Import Common.NumFacts C03.Model C03.ModelVlle.
 Open Scope Q_scope.
 
 (* ------------------------------------------------------------------ part 1 *)
@@ -1164,4 +1164,220 @@ Proof.
   intros Lj W E. unfold sle_H_chemical in E. assert (Lj' : (j < length (s_s s))%nat) by lia.
   destruct (qzerob _); [discriminate|]. destruct (qleb Hl H); [|destruct (qleb H Hs)]; inversion E; subst; cbn [s_l s_s].
   all: split; [intros k Hk; rewrite !nth_upd_other by auto; auto|rewrite !nth_upd_same by assumption; lra].
+Qed.
+
+(* ------------------------------------------------------------------ LLE write-back: non-negativity *)
+Definition lle_z (islle : list bool) (s : lst) : vec :=
+  let pooled := vadd (l_l s) (l_L s) in
+  let ix := lle_idx islle pooled in
+  vdivs (gather ix pooled) (qsum (gather ix pooled)).
+(* cached branch: 0 <= phi and K >= 0 (what phase_fraction and the stored K satisfy);
+   solver branch: the result lies within the bounds [0, z] handed to the optimiser *)
+Definition lle_hyp (islle : list bool) (o : lle_oracle) (s : lst) : Prop :=
+  if lo_cache o then 0 <= lo_phi o /\ (forall p, 0 <= nthq (lo_K o) p)
+  else forall p, 0 <= nthq (lo_molL o) p <= nthq (lle_z islle s) p.
+
+Lemma lle_nonneg_lemma islle o s s' : length (l_l s) = length (l_L s) ->
+  (forall k, 0 <= nthq (l_l s) k /\ 0 <= nthq (l_L s) k) -> lle_hyp islle o s ->
+  lle_call islle o s = Ok s' -> forall k, 0 <= nthq (l_l s') k /\ 0 <= nthq (l_L s') k.
+Proof.
+  intros W N HY H. unfold lle_call in H. unfold lle_hyp, lle_z in HY.
+  set (pooled := vadd (l_l s) (l_L s)) in *.
+  set (zero := vzero (length (l_l s))) in *.
+  set (ix := lle_idx islle pooled) in *.
+  assert (Lp : length pooled = length (l_l s)) by (apply vadd_len; exact W).
+  assert (PK : forall k, 0 <= nthq pooled k).
+  { intros k. unfold pooled. rewrite nthq_vadd by exact W. destruct (N k). lra. }
+  destruct (nzb (qsum (gather ix pooled)) && (1 <? length ix)%nat) eqn:E0.
+  2:{ inversion H; subst; cbn [l_l l_L]. intros k. unfold zero. rewrite nthq_vzero. split; [lra|apply PK]. }
+  apply andb_prop in E0. destruct E0 as (E0 & _). unfold nzb in E0. apply negb_true_iff in E0. apply qzerob_false in E0.
+  set (F := qsum (gather ix pooled)) in *.
+  assert (F0 : 0 < F).
+  { assert (0 <= F) by (apply qsum_nonneg; apply nthq_nn_gather; exact PK). destruct (Qeq_dec F 0); [contradiction|lra]. }
+  set (z := vdivs (gather ix pooled) F) in *.
+  assert (Lz : length z = length ix) by (unfold z; rewrite vdivs_length, gather_length; reflexivity).
+  assert (Zp : forall p, 0 <= nthq z p).
+  { intros p. unfold z. rewrite nthq_vdivs. apply Qle_shift_div_l; [exact F0|]. rewrite Qmult_0_l. apply nthq_nn_gather; exact PK. }
+  match type of H with bind ?r _ = _ => destruct r as [[ml mL]|e] eqn:ER; [|discriminate] end.
+  cbn [bind] in H.
+  assert (NNp : forall p, (p < length ix)%nat -> 0 <= nthq ml p /\ 0 <= nthq mL p).
+  { destruct (lo_cache o).
+    - destruct HY as (P0 & K0).
+      destruct (qleb 1 (lo_phi o)) eqn:E1.
+      + inversion ER; subst. intros p Hp. rewrite nthq_vscale. split; [apply Zp|lra].
+      + apply qleb_false in E1. destruct (existsb _ _); [discriminate|]. inversion ER; subst.
+        intros p Hp.
+        assert (L1 : length (map2 (fun zk k => zk * k / (lo_phi o * k + (1 - lo_phi o))) z (fit (length ix) (lo_K o))) = length ix)
+          by (rewrite map2_length by (rewrite fit_length; auto); auto).
+        rewrite nthq_vsub by (rewrite vscale_length; congruence).
+        rewrite nthq_vscale. rewrite nthq_map2 by (rewrite ?fit_length; lia). rewrite nthq_fit by exact Hp.
+        set (k := nthq (lo_K o) p). assert (Kp : 0 <= k) by apply K0. specialize (Zp p). set (zp := nthq z p) in *.
+        assert (D : 0 < lo_phi o * k + (1 - lo_phi o)).
+        { assert (0 <= lo_phi o * k) by (apply Qmult_le_0_compat; assumption). lra. }
+        assert (A : 0 <= zp * k / (lo_phi o * k + (1 - lo_phi o))).
+        { apply Qle_shift_div_l; [exact D|]. rewrite Qmult_0_l. apply Qmult_le_0_compat; assumption. }
+        split; [apply Qmult_le_0_compat; assumption|].
+        assert (B : zp - lo_phi o * (zp * k / (lo_phi o * k + (1 - lo_phi o))) ==
+                    zp * (1 - lo_phi o) / (lo_phi o * k + (1 - lo_phi o))) by (field; lra).
+        rewrite B. apply Qle_shift_div_l; [exact D|]. rewrite Qmult_0_l. apply Qmult_le_0_compat; lra.
+    - inversion ER; subst. intros p Hp.
+      rewrite nthq_vsub by (rewrite fit_length; auto). rewrite nthq_fit by exact Hp.
+      specialize (HY p). fold z in HY. lra. }
+  assert (FIN : forall a b, (forall p, (p < length ix)%nat -> 0 <= nthq a p /\ 0 <= nthq b p) ->
+            forall k, 0 <= nthq (scatter ix (vscale F a) zero) k /\ 0 <= nthq (scatter ix (vscale F b) pooled) k).
+  { intros a b AB k. destruct (Nat.lt_ge_cases k (length (l_l s))) as [L|G].
+    - rewrite !nthq_scatter by (unfold zero; rewrite ?vzero_length; lia).
+      destruct (pos k ix) as [p|] eqn:EP.
+      + apply pos_some in EP. destruct EP as (Hp & _). destruct (AB p Hp). rewrite !nthq_vscale.
+        split; apply Qmult_le_0_compat; lra.
+      + unfold zero. rewrite nthq_vzero. split; [lra|apply PK].
+    - rewrite !nthq_over by (rewrite scatter_length; unfold zero; rewrite ?vzero_length; lia). split; lra. }
+  match type of H with (let (_, _) := if ?b then _ else _ in _) = _ => destruct b end.
+  - inversion H; subst; cbn [l_l l_L]. intros k. apply FIN. intros p Hp. destruct (NNp p Hp). split; assumption.
+  - inversion H; subst; cbn [l_l l_L]. apply FIN. exact NNp.
+Qed.
+
+(* ------------------------------------------------------------------ Stream.vlle *)
+Definition keeps3 (s s' : v3) : Prop := wf3 s' /\ length (d_l s') = length (d_l s) /\ forall k, tot3 s' k == tot3 s k.
+
+Lemma keeps3_refl s : wf3 s -> keeps3 s s.
+Proof. intros W. split; [exact W|]. split; [reflexivity|]. intros; reflexivity. Qed.
+Lemma keeps3_trans a b c : keeps3 a b -> keeps3 b c -> keeps3 a c.
+Proof.
+  intros (A1 & A2 & A3) (B1 & B2 & B3). split; [exact B1|]. split; [congruence|]. intros k. rewrite B3. apply A3.
+Qed.
+
+Lemma nthq_map_lt3 (f : Q -> Q) l i : (i < length l)%nat -> nthq (map f l) i = f (nthq l i).
+Proof.
+  unfold nthq. revert i; induction l as [|x l IH]; intros [|i] H; simpl in *; try lia; auto. apply IH. lia.
+Qed.
+Lemma nthq_map0 (f : Q -> Q) l k : f 0 == 0 -> nthq (map f l) k == f (nthq l k).
+Proof.
+  intros F. destruct (Nat.lt_ge_cases k (length l)) as [L|G].
+  - rewrite nthq_map_lt3 by exact L. reflexivity.
+  - rewrite !nthq_over by (rewrite ?map_length; exact G). symmetry. exact F.
+Qed.
+Lemma red_keeps s : wf3 s -> keeps3 s (v3_red s).
+Proof.
+  intros (W1 & W2). unfold keeps3, wf3, tot3, v3_red. cbn [d_L d_g d_l]. rewrite !map_length.
+  split; [split; assumption|]. split; [reflexivity|]. intros k.
+  rewrite !(nthq_map0 Qred) by (apply Qred_correct). rewrite !Qred_correct. reflexivity.
+Qed.
+Lemma keeps_red s x : keeps3 s x -> keeps3 s (v3_red x).
+Proof. intros K. eapply keeps3_trans; [exact K|apply red_keeps; exact (proj1 K)]. Qed.
+
+Lemma vlle_vle_keeps cf orc T P s s' : wf3 s -> vlle_vle cf orc T P s = XOk s' -> keeps3 s s'.
+Proof.
+  intros (W1 & W2) H. unfold vlle_vle in H.
+  destruct (vle cf orc (SpTP T P) (mkst (d_l s) (d_g s) [d_L s] (d_T s) (d_P s))) as [st|e m] eqn:E; [|discriminate].
+  inversion H; subst s'; clear H. apply keeps_red.
+  apply vle_conserve_lemma in E; [|unfold wf; cbn [liq vap]; congruence].
+  destruct E as (E1 & E2 & E3 & E4). cbn [liq vap oth] in *.
+  unfold keeps3, wf3, tot3. cbn [d_L d_g d_l]. rewrite E4. cbn [nth].
+  split; [split; congruence|]. split; [exact E2|].
+  intros k. specialize (E1 k). unfold tot in E1. cbn [liq vap oth map qsum fold_right] in E1. rewrite E4 in E1.
+  cbn [map qsum fold_right] in E1. unfold qsum in E1. cbn [fold_right] in E1. lra.
+Qed.
+
+Lemma vlle_lle_keeps islle o T P s s' : wf3 s -> vlle_lle islle o T P s = XOk s' -> keeps3 s s'.
+Proof.
+  intros (W1 & W2) H. unfold vlle_lle in H.
+  destruct (lle_call islle o (mklst (d_l s) (d_L s))) as [r|e] eqn:E; [|discriminate].
+  inversion H; subst s'; clear H. apply keeps_red.
+  apply lle_conserve_lemma in E; [|cbn [l_l l_L]; congruence].
+  destruct E as (E1 & E2 & E3). cbn [l_l l_L] in *.
+  unfold keeps3, wf3, tot3. cbn [d_L d_g d_l]. split; [split; congruence|]. split; [exact E1|].
+  intros k. specialize (E3 k). lra.
+Qed.
+
+Lemma swap_keeps s : wf3 s -> keeps3 s (swap_lL s).
+Proof.
+  intros (W1 & W2). unfold keeps3, wf3, tot3, swap_lL. cbn [d_L d_g d_l].
+  split; [split; congruence|]. split; [congruence|]. intros k. lra.
+Qed.
+
+Lemma vlle_step_keeps cf islle T P os s s' : wf3 s -> vlle_step cf islle T P os s = XOk s' -> keeps3 s s'.
+Proof.
+  intros W H. unfold vlle_step in H. destruct os as [[lo vo1] vo2].
+  destruct (vlle_lle islle lo T P s) as [s1| |] eqn:E1; try discriminate. cbn [xbind] in H.
+  pose proof (vlle_lle_keeps _ _ _ _ _ _ W E1) as K1.
+  destruct (vlle_vle cf vo1 T P s1) as [s2| |] eqn:E2; try discriminate. cbn [xbind] in H.
+  pose proof (vlle_vle_keeps _ _ _ _ _ _ (proj1 K1) E2) as K2.
+  pose proof (swap_keeps s2 (proj1 K2)) as K3.
+  destruct (vlle_vle cf vo2 T P (swap_lL s2)) as [s3| |] eqn:E3; try discriminate. cbn [xbind] in H.
+  pose proof (vlle_vle_keeps _ _ _ _ _ _ (proj1 K3) E3) as K4.
+  pose proof (swap_keeps s3 (proj1 K4)) as K5.
+  inversion H; subst s'.
+  eapply keeps3_trans; [exact K1|]. eapply keeps3_trans; [exact K2|]. eapply keeps3_trans; [exact K3|].
+  eapply keeps3_trans; [exact K4|exact K5].
+Qed.
+
+Lemma vlle_steps_keeps cf islle T P oss : forall s s', wf3 s -> vlle_steps cf islle T P oss s = XOk s' -> keeps3 s s'.
+Proof.
+  induction oss as [|os t IH]; intros s s' W H; cbn [vlle_steps] in H.
+  - inversion H; subst. apply keeps3_refl; exact W.
+  - destruct (vlle_step cf islle T P os s) as [s1| |] eqn:E; try discriminate. cbn [xbind] in H.
+    pose proof (vlle_step_keeps _ _ _ _ _ _ _ W E) as K1.
+    eapply keeps3_trans; [exact K1|]. apply IH; [exact (proj1 K1)|exact H].
+Qed.
+
+Lemma merge_keeps s : wf3 s ->
+  keeps3 s (mkv3 (vzero (length (d_L s))) (d_g s) (vadd (d_l s) (d_L s)) (d_T s) (d_P s)).
+Proof.
+  intros (W1 & W2). unfold keeps3, wf3, tot3. cbn [d_L d_g d_l].
+  rewrite vzero_length, vadd_len by congruence. split; [split; congruence|]. split; [reflexivity|].
+  intros k. rewrite nthq_vzero, nthq_vadd by congruence. lra.
+Qed.
+
+Lemma vlle_conserve_lemma cf islle vo0 lo0 oss T P s s' : wf3 s ->
+  vlle cf islle vo0 lo0 oss T P s = XOk s' -> wf3 s' /\ forall k, tot3 s' k == tot3 s k.
+Proof.
+  intros W H. unfold vlle in H.
+  pose proof (merge_keeps s W) as K0.
+  set (s0 := mkv3 (vzero (length (d_L s))) (d_g s) (vadd (d_l s) (d_L s)) (d_T s) (d_P s)) in *.
+  assert (FIN : forall x, keeps3 s0 x -> wf3 x /\ forall k, tot3 x k == tot3 s k).
+  { intros x Kx. destruct (keeps3_trans _ _ _ K0 Kx) as (A & _ & B). auto. }
+  destruct (vlle_vle cf vo0 T P s0) as [s1| |] eqn:E1; try discriminate. cbn [xbind] in H.
+  pose proof (vlle_vle_keeps _ _ _ _ _ _ (proj1 K0) E1) as K1.
+  destruct (negb (anynz (d_g s1))).
+  { apply FIN. eapply keeps3_trans; [exact K1|]. eapply vlle_lle_keeps; [exact (proj1 K1)|exact H]. }
+  destruct (negb (anynz (d_l s1))).
+  { inversion H; subst. apply FIN. exact K1. }
+  destruct (vlle_lle islle lo0 T P s1) as [s2| |] eqn:E2; try discriminate. cbn [xbind] in H.
+  pose proof (vlle_lle_keeps _ _ _ _ _ _ (proj1 K1) E2) as K2.
+  assert (K02 : keeps3 s0 s2) by (eapply keeps3_trans; eauto).
+  destruct (negb (anynz (d_L s2) && anynz (d_l s2))).
+  { inversion H; subst. apply FIN. exact K02. }
+  destruct (qzerob (v3_total s2)) eqn:Z; [discriminate|]. apply qzerob_false in Z.
+  set (t := v3_total s2) in *.
+  (* normalise *)
+  assert (KN : wf3 (v3_scale (fun x => x / t) s2) /\ length (d_l (v3_scale (fun x => x / t) s2)) = length (d_l s2) /\
+               forall k, tot3 (v3_scale (fun x => x / t) s2) k == tot3 s2 k / t).
+  { destruct K02 as ((A1 & A2) & _). unfold wf3, v3_scale, tot3. cbn [d_L d_g d_l]. rewrite !map_length.
+    split; [split; assumption|]. split; [reflexivity|]. intros k.
+    rewrite !(nthq_map0 (fun x => x / t)) by (field; exact Z). field. exact Z. }
+  destruct KN as (WN & LN & TN).
+  pose proof (red_keeps _ WN) as KR.
+  destruct (vlle_steps cf islle T P oss (v3_red (v3_scale (fun x => x / t) s2))) as [s3| |] eqn:E3; try discriminate.
+  cbn [xbind] in H.
+  pose proof (keeps3_trans _ _ _ KR (vlle_steps_keeps _ _ _ _ _ _ _ (proj1 KR) E3)) as K3.
+  set (s4 := if qltb (qabs_diff_sum (d_l s3) (d_L s3)) c_1em6
+             then mkv3 (vzero (length (d_L s3))) (d_g s3) (vadd (d_l s3) (d_L s3)) (d_T s3) (d_P s3) else s3) in *.
+  assert (K4 : keeps3 s3 s4).
+  { unfold s4. destruct (qltb _ _); [apply merge_keeps|apply keeps3_refl]; exact (proj1 K3). }
+  pose proof (keeps3_trans _ _ _ K3 K4) as (W4 & L4 & T4).
+  injection H as H. subst s'.
+  assert (WS : wf3 (v3_scale (fun x => x * t) s4)).
+  { destruct W4 as (B1 & B2). unfold wf3, v3_scale. cbn [d_L d_g d_l]. rewrite !map_length. split; assumption. }
+  destruct (red_keeps _ WS) as (WR & _ & TR).
+  split; [exact WR|].
+  - intros k. rewrite TR. unfold v3_scale, tot3 at 1. cbn [d_L d_g d_l].
+    rewrite !(nthq_map0 (fun x => x * t)) by ring.
+    destruct K02 as (_ & _ & T02). destruct K0 as (_ & _ & T0).
+    specialize (T4 k). specialize (TN k). specialize (T02 k). specialize (T0 k). unfold tot3 in *.
+    assert (Q1 : (nthq (d_L s4) k + nthq (d_g s4) k + nthq (d_l s4) k) * t ==
+                 (nthq (d_L s2) k + nthq (d_g s2) k + nthq (d_l s2) k) / t * t) by (rewrite T4, TN; reflexivity).
+    assert (Q2 : (nthq (d_L s2) k + nthq (d_g s2) k + nthq (d_l s2) k) / t * t ==
+                 nthq (d_L s2) k + nthq (d_g s2) k + nthq (d_l s2) k) by (field; exact Z).
+    lra.
 Qed.
